@@ -124,6 +124,27 @@ CHECKS = {
          "The set of assigned directories is taken from `bob query-path` of the same state (existing workspaces of the current graph). "
          "Source workspaces with -s may or may not be removed (SCM status decides).",
          "3 (C16)", "E1 bobproc, E2 projgen, E4 treecanon"),
+ "C06": ("exploration",
+         "Hypothesis-generated task scripts (yield counts = schedule) on the real JobServerSemaphore over a real pipe with token-conservation invariants; Hypothesis (project, job count, step durations, failing step, -k, make job server) generation with an event-log oracle (dependency order, no double execution, job bound, failure confinement), differential vs sequential build, token count at shutdown",
+         "L2: 2-7 asyncio tasks acquire/release/yield/await children on JobServerSemaphore (internal and recursive mode); holders and "
+         "tokens are checked after every step, every task must finish and all tokens must be back. L1: generated DAG projects are built "
+         "with -j 2..8 or below an emulated make job server with generated step durations, failures and -k; the linearised start/end "
+         "log must respect dependencies, the job limit and failure confinement; results equal the sequential build; no token is lost.",
+         "The L2 schedule space is the set of interleavings reachable through yield counts of a single-threaded event loop (no "
+         "cancellation). L1 explores the schedules that generated sleep durations produce - real timing decides, the oracle only uses "
+         "event order. With -k only failing build/package steps must leave independent steps completed (a failing checkout ends the "
+         "Build-Id calculation of everything above it by design).",
+         "3 (C06)", "E1 bobproc, E2 projgen, E3 scripts, E4 treecanon"),
+ "C07": ("exploration",
+         "Hypothesis (uploader state, edit history, download mode, host fingerprint, relocatability, archive noise) generation; differential oracle downloading build vs purely local build at the same path (recorder scripts + tree canonicaliser), event-log oracle for complete reuse",
+         "An uploader builds state S_A at one path into a file archive; a downloader builds S_A + 0-3 edits at a differently long path "
+         "with a generated download mode and equal or different emulated host fingerprint. Every package result must equal a purely "
+         "local build at the same path; with identical state nothing may be built (yes/forced) resp. only the top-level package (deps).",
+         "file:// archive only; the host fingerprint is a whitelisted file read by fingerprintScript and by the build scripts of "
+         "fingerprinted recipes; non-relocatable packages record $PWD. Packages consumed through tools record neither (Bob documents "
+         "that host dependencies of tools do not propagate) and directories of weak tools are recorded by name only. Live-build-id "
+         "prediction is exercised only through deterministic checkout scripts (no git/url SCM here).",
+         "3 (C07)", "E1 bobproc, E2 projgen, E3 scripts, E4 treecanon"),
 }
 
 NOT_YET = {}
